@@ -111,7 +111,8 @@ class Ledger:
                 elif ak == "OverflowNeg":
                     self.sites.append(Site(fn, b, "overflow:Neg", "Neg(%s)" % expr_str(ops[0], 70), t.get("sp"), macs, ops, {"ty": self._ty_of(fn, t["ops"][0]), "raw": t["ops"]}))
                 else:
-                    self.sites.append(Site(fn, b, ak.lower(), "%s(%s)" % (ak, ", ".join(expr_str(o, 60) for o in ops)), t.get("sp"), macs, ops))
+                    self.sites.append(Site(fn, b, ak.lower(), "%s(%s)" % (ak, ", ".join(expr_str(o, 60) for o in ops)), t.get("sp"), macs, ops,
+                                           {"cond": fn.expr(t["cond"], 10), "expected": t.get("expected")}))
                 continue
             if k != "call":
                 continue
@@ -210,6 +211,8 @@ class Ledger:
             return self.v_callers_dominated(site, e)
         if tac == "field-writers":
             return self.v_field_writers(site, e)
+        if tac == "variant-built-only-in":
+            return self.v_variant_built(site, e)
         if tac == "guarded-mul":
             return self.v_guarded_mul(site, e)
         if tac == "nonempty-const-arg":
@@ -311,6 +314,25 @@ class Ledger:
                     out.add(c)
                     work.append(c)
         return out
+
+    def v_variant_built(self, site, e):
+        """enum variant `adt::variant` is only constructed in `builders`, and those are only called from `callers`"""
+        adt, variant = e["adt"], e["variant"]
+        builders = set()
+        for n, f in self.prog.fns.items():
+            if f.bkind != "fn" or f.d.get("auto_derived"):
+                continue
+            for b, i, s in f.assigns():
+                if s["r"]["k"] == "agg" and s["r"].get("adt") == adt and s["r"].get("variant") == variant:
+                    builders.add(n)
+        extra = sorted(short(b) for b in builders if short(b) not in e["builders"])
+        if extra:
+            return False, "%s::%s is also built in %s" % (short(adt), variant, extra)
+        for b in builders:
+            cs = {short(c) for c in self.ctx.cg.callers(b)}
+            if not cs <= set(e["callers"]):
+                return False, "%s is also called from %s" % (short(b), sorted(cs - set(e["callers"])))
+        return True, "built only in %s, called only from %s" % (sorted(short(b) for b in builders), e["callers"])
 
     def v_guarded_mul(self, site, e):
         """a * b dominated by the false edge of `a > K / b` (K a constant within the type)"""
@@ -446,6 +468,13 @@ class Ledger:
             {expr_str(l, 30): sorted(v)[:8] for l, v in b.items()}, n)
 
     def t_const(self, site):
+        if site.kind in ("divisionbyzero", "remainderbyzero") and "cond" in site.extra:
+            try:
+                v = formula.evaluate(site.extra["cond"], {})
+                if bool(v) == bool(site.extra.get("expected")):
+                    return "operands constant: the divisor is a non-zero constant"
+            except (formula.Unknown, formula.Overflow):
+                pass
         if site.kind.startswith("overflow:") and "cond" in site.extra:
             try:
                 v = formula.evaluate(site.extra["cond"], {})
@@ -601,13 +630,17 @@ class Ledger:
                     r = (0, b[1] - 1)
                 elif op == "Div" and b[0] > 0 and a[0] >= 0:
                     r = (a[0] // b[1], a[1] // b[0])
+        elif k == "un" and e[1] == "PtrMetadata":
+            r = (0, 2**63 - 1)
         elif k == "field":
             # typed field of a known struct: use the declared field type when we can find it
             r = self._field_range(e)
         elif k == "call" and e[1]:
             c = e[1]
             m = re.search(r"core::num::<impl (\w+)>::(\w+)$", c)
-            if c.endswith("::len") or c.endswith("::count") or c.endswith("len_utf8"):
+            if False:
+                pass
+            elif c.endswith("::len") or c.endswith("::count") or c.endswith("len_utf8"):
                 r = (1, 4) if c.endswith("len_utf8") else (0, 2**63 - 1)
             elif m and m.group(2) in ("wrapping_add", "wrapping_sub", "wrapping_mul"):
                 r = TY_RANGE.get(m.group(1))
@@ -708,6 +741,17 @@ class Ledger:
                     return "guarded: dominated by `%s` = %s, operands unchanged" % (expr_str(c, 80), v)
             # a - const with a's lower bound from an equality/greater guard is interval's job
         if site.kind == "unwrap":
+            # v.get(i).expect(..) dominated by the false edge of `i >= v.len()` (or the true edge of `i < v.len()`)
+            g = kit.strip_refs(site.operands[0])
+            if g[0] == "call" and g[1] and re.search(r"(<impl \[T\]>|Vec::<T, A>)::get$", g[1]) and len(g[2]) == 2:
+                vec, idx = g[2]
+                for c, v in cons:
+                    if c[0] == "bin" and c[1] in ("Ge", "Lt") and _same(c[2], idx):
+                        ln = _canon(c[3])
+                        target = ("len", kit.strip_refs(_deref_target(vec)))
+                        inbounds = (c[1] == "Ge" and v == 0) or (c[1] == "Lt" and v != 0)
+                        if inbounds and ln[0] == "len" and (ln == target or expr_str(ln[1]) == expr_str(target[1])):
+                            return "guarded: index dominated by `%s` = %s" % (expr_str(c, 80), v)
             # x.unwrap() dominated by a test that x is Some/Ok
             x = kit.strip_refs(site.operands[0])
             for c, v in cons:
@@ -768,8 +812,26 @@ def _meet(a, b):
     return (max(a[0], b[0]), min(a[1], b[1]))
 
 
+def _deref_target(e):
+    """look through Deref::deref(&v) wrappers"""
+    e = kit.strip_refs(e)
+    while e[0] == "call" and e[1] and e[1].endswith("Deref>::deref") and e[2]:
+        e = kit.strip_refs(e[2][0])
+    return e
+
+
+def _canon(e):
+    """PtrMetadata(x) and x.len() denote the same quantity"""
+    e = kit.strip_refs(e)
+    if e[0] == "un" and e[1] == "PtrMetadata":
+        return ("len", kit.strip_refs(e[2]))
+    if e[0] == "call" and e[1] and re.search(r"(<impl \[T\]>|Vec::<T, A>|<impl str>|String)::len$", e[1]) and len(e[2]) == 1:
+        return ("len", kit.strip_refs(e[2][0]))
+    return e
+
+
 def _same(a, b):
-    return kit.strip_refs(a) == kit.strip_refs(b)
+    return _canon(a) == _canon(b)
 
 
 def _constraint_interval(c, v, e):
